@@ -627,9 +627,11 @@ def _argwhere(a):
 
 
 def _meshgrid(*xs, indexing="xy", **_k):
-    if indexing != "ij" or len(xs) != 2:
-        raise TypeError("only np.meshgrid(a, b, indexing='ij') is modelled")
+    if indexing not in ("ij", "xy") or len(xs) != 2:
+        raise TypeError("only np.meshgrid(a, b, indexing='ij' | 'xy') is modelled")
     a, b = [list(_to_data(x)) if not isinstance(x, range) else list(x) for x in xs]
+    if indexing == "xy":
+        return [Arr([[x for x in a] for _ in b]), Arr([[y for _ in a] for y in b])]
     return [Arr([[x for _ in b] for x in a]), Arr([[y for y in b] for _ in a])]
 
 
@@ -654,7 +656,25 @@ def _prod(x, axis=None, **_k):
     return a.reduce_axis(mul, axis)
 
 
+def _norm(x, ord=None, axis=None, **_k):
+    """np.linalg.norm of a vector (or of each row / column of a matrix along `axis`) for ord 1, 2 (default), inf"""
+    a = _arr(x)
+    if ord not in (None, 1, 2, float("inf")) or not isinstance(a, Arr) or (a.ndim == 2 and axis is None) or a.ndim > 2:
+        raise TypeError("only vector norms with ord 1 / 2 / inf are modelled")
+
+    def nrm(xs):
+        if ord == 1:
+            return sum(abs(v) for v in xs)
+        if ord == float("inf"):
+            return max(abs(v) for v in xs)
+        r = sum(v * v for v in xs) ** 0.5
+        return int(r) if r == int(r) else r
+    r = a.reduce_axis(nrm, axis)
+    return r if isinstance(r, Arr) else Arr(r)
+
+
 MODELS = {
+    "np.linalg.norm": _norm,
     "np.sort": _sort,
     "warnings.warn": lambda *a, **k: None,
     "np.prod": _prod,
